@@ -908,13 +908,11 @@ func RuleK6(c *Ctx) {
 	if fn := c.P.Fn("ipa", "IPAProof", "Read"); fn != nil {
 		c.Saw(core.FnName(fn))
 		var ks []int64
-		for _, l := range core.Loops(fn) {
-			for _, cd := range core.Conds(fn) {
-				if cd.Block == l.Header {
-					if k, ok := core.ConstInt(cd.Y); ok {
-						ks = append(ks, k)
-					}
-				}
+		for _, cl := range countedLoops(fn) {
+			if k, ok := cl.tripCount(); ok {
+				ks = append(ks, k)
+			} else {
+				ks = append(ks, -1)
 			}
 		}
 		n++
